@@ -24,8 +24,20 @@ Proof. exact (delta_est_antitone pt e e'). Qed.
 Example C07_nonvacuous : roll_amount 4 10 = 8%Z /\ roll_amount 5 10 = 4%Z /\ aligned_size 6 = 8%Z.
 Proof. repeat split. Qed.
 
+(* the convolution tree of compose_heterogeneous (generated tree_level / tree_compose over an abstract composition): for EVERY number of
+   PRVs -- every tree shape, odd and even levels at every depth -- the result is the composition of ALL of them, whenever composition is
+   associative and commutative with a unit (exact convolution of pmfs is; truncation to the grid is outside the theorem) *)
+Theorem C07_tree_composes_all (A : Type) (op : A -> A -> A) (e : A) :
+  (forall a b c, op a (op b c) = op (op a b) c) -> (forall a b, op a b = op b a) -> (forall a, op a e = a) ->
+  forall (fuel : nat) (l : list A), l <> nil -> (length l <= fuel)%nat -> tree_compose op fuel l = Some (tprod A op e l).
+Proof. intros H1 H2 H3 fuel l. exact (tree_composes_all A op e H1 H2 H3 fuel l). Qed.
+(* e.g. the shifts of the composed domain are the sum of all shifts: 6 PRVs *)
+Example C07_tree_six : tree_compose Z.add 6 (1 :: 2 :: 3 :: 4 :: 5 :: 6 :: nil)%Z = Some 21%Z.
+Proof. reflexivity. Qed.
+
 Print Assumptions C07_roll_alignment.
 Print Assumptions C07_grid_size_even.
 Print Assumptions C07_fourier_shifts_total.
 Print Assumptions C07_eps_triple_ordered.
 Print Assumptions C07_delta_estimate_antitone.
+Print Assumptions C07_tree_composes_all.
